@@ -652,12 +652,38 @@ class LoopSpec:
             kw[p] = I.load_name(p, frame)
         return I.call(fn, [], kw)
 
-    def _havoc(self, I, frame):
+    def _assigned_in(self, stmts):
+        """Names (and self.attributes) assigned anywhere in the loop: the loop rule is only sound if all
+        of them are havocked, whatever the specification lists."""
+        import ast as _ast
+
+        names, attrs = set(), set()
+        for st in stmts:
+            for n in _ast.walk(st):
+                if isinstance(n, _ast.Name) and isinstance(n.ctx, (_ast.Store, _ast.Del)):
+                    names.add(n.id)
+                elif isinstance(n, _ast.Attribute) and isinstance(n.ctx, _ast.Store) and isinstance(n.value, _ast.Name) and n.value.id == "self":
+                    attrs.add("self." + n.attr)
+                elif isinstance(n, _ast.ExceptHandler) and n.name:
+                    names.add(n.name)
+        return names, attrs
+
+    def _havoc(self, I, frame, loop_stmt=None):
         from .core import SObj
 
         I.path.notes.append("havoc")  # from here on the state is an arbitrary one, not a real execution prefix
 
-        for m in self.modifies:
+        mods = list(self.modifies)
+        if loop_stmt is not None:
+            names, attrs = self._assigned_in(list(loop_stmt.body) + list(getattr(loop_stmt, "orelse", [])))
+            for a in sorted(attrs):
+                if a not in mods:
+                    mods.append(a)
+            for nme in sorted(names):
+                if nme in frame.locals and nme not in mods and not (isinstance(getattr(loop_stmt, "target", None), __import__("ast").Name) and loop_stmt.target.id == nme):
+                    mods.append(nme)
+                    I.path.notes.append("auto-havoc:" + nme)
+        for m in mods:
             if m.startswith("ghost:"):
                 key = "g:" + m[6:]
                 n0 = I.path.fresh_int(f"havoc.{m}.len")
@@ -684,8 +710,14 @@ class LoopSpec:
                     n0 = I.path.fresh_int(f"havoc.{m}.len")
                     I.path.assume(n0 >= 0)
                     frame.locals[m] = SymList(n0)
-                else:
+                elif cur is None or isinstance(cur, (int, SInt, SBool)) and not isinstance(cur, bool):
                     frame.locals[m] = SInt(I.path.fresh_int(f"havoc.{m}"))
+                elif isinstance(cur, (bool, SBool)):
+                    frame.locals[m] = SBool(I.path.fresh_bool(f"havoc.{m}"))
+                else:
+                    # a local of another kind (object, tuple, string): unknown after an arbitrary number of
+                    # iterations; the body re-assigns it before use or the run leaves the subset
+                    frame.locals.pop(m, None)
 
     def run(self, I, s, frame, kind, iterable):
         from .core import PathAbort
@@ -702,7 +734,7 @@ class LoopSpec:
         # there come with an input that replays natively (the havocked state below may be unreachable)
         first = I.path.choose(2, "loop!first-or-arbitrary") == 0
         if not first:
-            self._havoc(I, frame)
+            self._havoc(I, frame, s)
             I.path.assume(I.as_z3_bool(self._call(I, self.invariant, frame)))
         if not I.truth(I.eval(s.test, frame)):
             if first:
@@ -733,9 +765,8 @@ class LoopSpec:
         prove = I.cfg["prove"]
         site = f"{self.qualname}#loop{self.ordinal}"
         prove("loop-invariant-entry", site, I.as_z3_bool(self._call(I, self.invariant, frame)))
-        if self.modifies:
-            self._havoc(I, frame)
-            I.path.assume(I.as_z3_bool(self._call(I, self.invariant, frame)))
+        self._havoc(I, frame, s)
+        I.path.assume(I.as_z3_bool(self._call(I, self.invariant, frame)))
         if I.path.choose(2, "loop!iterate-or-exit") == 1:
             I.exec_block(s.orelse, frame)
             return
@@ -773,7 +804,7 @@ class LoopSpec:
         prove = I.cfg["prove"]
         site = f"{self.qualname}#loop{self.ordinal}"
         prove("loop-invariant-entry", site, I.as_z3_bool(self._call(I, self.invariant, frame)))
-        self._havoc(I, frame)
+        self._havoc(I, frame, s)
         I.path.assume(I.as_z3_bool(self._call(I, self.invariant, frame)))
         if I.path.choose(2, "loop!iterate-or-exit") == 1:
             return  # after the loop: havocked state satisfying the invariant
